@@ -19,6 +19,8 @@ NAME_FAMILIES = [
     "/tmp/zq{tag}", "/tmp/user/1000/zq{tag}", "/dev/shm/zq{tag}", "/dev/dri/card0-zq{tag}", "/dev/tty1-zq{tag}", "/opt/App Name/zq{tag}", "/boot/vmlinuz-6.1.0-18-amd64-zq{tag}",
     "/usr/lib/x86_64-linux-gnu/app/zq{tag}", "/usr/lib/modules/6.1.0-18-amd64/kernel/zq{tag}.ko", "/var/lib/app/3f2a8c1e-9b7d-4e6f-a1b2-c3d4e5f60718/zq{tag}",
     "/var/cache/app/0123456789abcdef0123456789abcdef/zq{tag}", "/srv/data/20240101/zq{tag}", "/home/{user}/.mozilla/firefox/ab12cd34.default/zq{tag}",
+    "/boot/vmlinuz-6.1.0-18-{arch}-zq{tag}", "/opt/vendor/plugins/{arch}/libzq{tag}.so.2", "/usr/lib/{arch}-linux-gnu/app/zq{tag}", "/var/lib/app/{arch}/zq{tag}",
+    "/home/{user}/.cache/1000/zq{tag}", "/srv/uid1000/zq{tag}", "/run/user/{uid}/app/1000/zq{tag}",
     "/usr/share/icons/Adwaita/16x16/zq{tag}.png", "/etc/ssl/certs/ca-certificates-zq{tag}.crt", "/home/{user}/Téléchargements/zq{tag}", "/media/{user}/USB DISK/zq{tag}",
 ]
 USERS = ["alice", "bob", "user1", "Ünï"]
@@ -76,7 +78,8 @@ def gen_record(rng, tag, cls=None, status=None, profile=None, tame=False):
     ts_ = tagstr(tag)
     comm = "c" + ts_
     user = rng.choice(USERS[:3] if tame else USERS)
-    name = rng.choice(NAME_FAMILIES).format(user=user, pid=rng.randint(2, 99999), tid=rng.randint(2, 99999), uid=rng.choice([1000, 1001, 0, 120]), tag=ts_)
+    name = rng.choice(NAME_FAMILIES).format(user=user, pid=rng.randint(2, 99999), tid=rng.randint(2, 99999), uid=rng.choice([1000, 1001, 0, 120]), tag=ts_,
+                                             arch=rng.choice(["amd64", "x86_64", "i386", "i686", "arm64", "aarch64", "riscv64", "armhf"]))
     f = [("apparmor", status)]
     if cls in ("file", "exec", "link"):
         op = {"exec": "exec", "link": "link"}.get(cls) or rng.choice([o for o in FILE_OPS if o not in ("exec", "link")])
@@ -148,3 +151,34 @@ def gen_record(rng, tag, cls=None, status=None, profile=None, tame=False):
         f += [("operation", "userns_create"), ("class", "namespace"), ("info", "Userns create restricted - failed to find unprivileged_userns profile"), ("error", "-13"),
               ("profile", profile), ("pid", pid), ("comm", comm), ("requested", "userns_create"), ("denied", "userns_create")]
     return {"fields": f, "cls": cls, "tag": tag, "values": dict((x[0], x[1]) for x in f), "status": status, "profile": profile}
+
+
+def variant(rng, rec, tag):
+    """A second, distinct access of the same subject: the record with exactly one meaningful field changed (new tag in comm only)."""
+    pools = {"unix": [("peer_addr", ["none", "@/tmp/.ICE-unix/2211", "@/tmp/.X11-unix/X1"]), ("addr", ["none", "@/tmp/.X11-unix/X0", "@/tmp/dbus-fixed"])],
+             "signal": [("signal", ["term", "kill", "hup", "usr1", "int"])], "ptrace": [("peer", PROFILES)], "cap": [("capname", ["net_admin", "sys_ptrace", "chown", "kill"])],
+             "net": [("sock_type", ["stream", "dgram", "raw"])], "dbus": [("member", ["Get", "Changed", "Ping", "Set"])], "file": [("requested_mask", ["r", "w", "k", "m"])]}
+    opts = pools.get(rec["cls"])
+    if not opts:
+        return None
+    key, vals = rng.choice(opts)
+    cur = dict((x[0], x[1]) for x in rec["fields"])
+    if key not in cur:
+        return None
+    choices = [v for v in vals if v != cur[key]]
+    if not choices:
+        return None
+    new = rng.choice(choices)
+    ts_ = tagstr(tag)
+    f = []
+    for (k, v) in rec["fields"]:
+        if k == key:
+            v = new
+        elif k == "denied_mask" and key == "requested_mask":
+            v = new
+        elif k == "comm":
+            v = "c" + ts_
+        f.append((k, v))
+    out = dict(rec)
+    out.update({"fields": f, "tag": tag, "values": dict(f), "variant_of": rec["tag"], "name_tag": rec.get("name_tag", rec["tag"])})
+    return out
